@@ -157,6 +157,31 @@ def run_pass(world, pspec, vector):
             viol.append(_viol("C20", "I1", "register:not-idempotent", site, pname, "second call changed awkward.behavior"))
         gexp = now
 
+    def numba_sizes():
+        import sys as _sys
+
+        if "numba" not in _sys.modules:
+            return None
+        import numba.extending
+        from numba.core.datamodel.registry import default_manager
+
+        return (len(numba.extending.typeof_impl.registry), len(default_manager._handlers), len(_sys.modules),
+                id(_sys.modules.get("vector.backends._numba_object")), id(_sys.modules.get("vector.backends.numba_numpy")))
+
+    numba_seen = [None]
+
+    def allowed_register_numba(site, before_g, sizes_before):
+        """register_numba(): none of the watched process-wide state may change; a repeated call changes nothing at all."""
+        nonlocal gexp
+        now = snapshot.global_state()
+        for key in snapshot.state_diff(before_g, now):
+            viol.append(_viol("C20", "I1", f"global:{key}", site if serial_like else "unattributed", pname, "changed while register_numba() ran"))
+        gexp = now
+        sizes = numba_sizes()
+        if sizes_before is not None and numba_seen[0] and sizes != sizes_before:
+            viol.append(_viol("C20", "I1", "register_numba:not-idempotent", site, pname, f"numba registries / modules {sizes_before} -> {sizes}"))
+        numba_seen[0] = True
+
     def check_pool(site, only=None, cheap_only=False):
         stats["i2_checks"] += 1
         idx = range(len(pool_snaps)) if only is None else only
@@ -272,6 +297,7 @@ def run_pass(world, pspec, vector):
             sched.atomic[k] += 1
             site = f"T:{k}:{i}:{op['f']}"
             before_g = gexp
+            nb_before = numba_sizes() if op.get("reg") == "numba" else None
             regb = _reg_state(vector)
             ctx = faults.OpCtx(plan.get((k, i)))
             faults.set_ctx(ctx)
@@ -356,6 +382,8 @@ def run_pass(world, pspec, vector):
             # I1 global: precise only when no other op can be in flight
             if op.get("reg") == "awkward":
                 allowed_register(site, before_g)
+            elif op.get("reg") == "numba":
+                allowed_register_numba(site, before_g, nb_before)
             elif serial_like:
                 check_global(site, True)
             # I2: pool operands (all in serial-like passes, the op's own operands otherwise)
